@@ -1,18 +1,18 @@
 #!/bin/bash
-# Detection demonstration on hand-written property-breaking changes (/verif/mutants/*.patch).
+# Detection demonstration on hand-written property-breaking changes ($V/mutants/*.patch).
 # Each patch is applied to /repo's working tree (never committed), the repository's own tests must
 # still pass, the quick check of the property named in the file name must exit 1, the tree is restored.
 # usage: tools/mutants.sh [pattern]
-cd /verif
-if [ -n "$(git -C /repo status --porcelain --untracked-files=no)" ]; then echo "/repo is dirty"; exit 2; fi
+V="$(cd "$(dirname "$0")/.." && pwd)"; REPO="${REPO:-/repo}"; cd "$V"
+if [ -n "$(git -C "$REPO" status --porcelain --untracked-files=no)" ]; then echo "$REPO is dirty"; exit 2; fi
 mkdir -p .build/mutants
 for f in mutants/${1:-m}*.patch; do
   n=$(basename $f .patch)
   p=$(echo $n | sed -E 's/^m[0-9]+-c([0-9]+)-.*/C\1/')
-  if ! git -C /repo apply /verif/$f 2>.build/mutants/$n.apply.log; then echo "STALE  $n (patch does not apply)"; continue; fi
-  if ( cd /repo && cargo test --offline >/verif/.build/mutants/$n.tests.log 2>&1 ); then tests=pass; else tests=FAIL; fi
+  if ! git -C "$REPO" apply $V/$f 2>.build/mutants/$n.apply.log; then echo "STALE  $n (patch does not apply)"; continue; fi
+  if ( cd "$REPO" && cargo test --offline >$V/.build/mutants/$n.tests.log 2>&1 ); then tests=pass; else tests=FAIL; fi
   ./check $p --tier quick >.build/mutants/$n.log 2>&1; code=$?
   rule=$(grep -m1 "rule=" .build/mutants/$n.log | sed 's/^ *//' | cut -c1-150)
   if [ $code -eq 1 ]; then echo "CAUGHT $n by $p tests=$tests  $rule"; else echo "MISSED $n by $p (exit $code) tests=$tests"; fi
-  git -C /repo checkout -- .
+  git -C "$REPO" checkout -- .
 done
